@@ -52,6 +52,7 @@ func init() {
 }
 
 func runC16(c *Ctx, r *Report) {
+	importFoundation(c, r, "C16", "telnet-negotiation")
 	r.Rule("C16/fd-owner", "an *os.File of the transport package is closed only by a Close method", 1)
 	checkFileClosedOnlyByClose(c, r, "C16/fd-owner")
 	r.Rule("C16/pipes-drained", "every crypto/ssh session pipe the standard transport takes is read / written by it", 2)
